@@ -2,12 +2,12 @@ SPECIFICATION MCSpec
 CONSTANTS
   Relax = {}
   Mode = "honest"
-  MaxBlocks = 3
+  MaxBlocks = 2
   Layouts = {"plain"}
-  MaxUnwind = 0
+  MaxUnwind = 1
   Features = {}
   Defect = "none"
-  MaxReload = 1
+  MaxReload = 0
 CONSTRAINT Bounded
 VIEW View
 INVARIANT TypeOK
